@@ -116,6 +116,53 @@ func extractC13(c *Ctx) {
 	c.Add("webBridgeTranscoderInit", "String", LeanStr(trInit), src, "initialiser of the local `transcoder` in NewWebBridge")
 	extractC13Flush(c)
 	extractC13Handoff(c)
+	extractC13CloseCode(c)
+}
+
+// extractC13CloseCode reads how websocketError (webbridge/websocket.go) arrives at the close code:
+//
+//	websocketErrorReturns : List (String × String)      -- every return: (condition of the innermost enclosing if, "" for none; results)
+//	websocketErrorCodeAssigns : List (String × String)  -- every assignment to `code`: (condition of the innermost enclosing if; value)
+func extractC13CloseCode(c *Ctx) {
+	sq := func(n ast.Node) string { return strings.Join(strings.Fields(c.Src(n)), "") }
+	rets, assigns := []string{}, []string{}
+	src := "webbridge/websocket.go"
+	if fd := c.FuncDecl("webbridge/websocket.go", "", "websocketError"); fd != nil && fd.Body != nil {
+		src = c.Pos(fd)
+		var walk func(list []ast.Stmt, cond string)
+		walk = func(list []ast.Stmt, cond string) {
+			for _, st := range list {
+				switch x := st.(type) {
+				case *ast.ReturnStmt:
+					var rs []string
+					for _, r := range x.Results {
+						rs = append(rs, sq(r))
+					}
+					rets = append(rets, fmt.Sprintf("(%s, %s)", LeanStr(cond), LeanStr(strings.Join(rs, ","))))
+				case *ast.AssignStmt:
+					for i, l := range x.Lhs {
+						if id, ok := l.(*ast.Ident); ok && id.Name == "code" && i < len(x.Rhs) {
+							assigns = append(assigns, fmt.Sprintf("(%s, %s)", LeanStr(cond), LeanStr(sq(x.Rhs[i]))))
+						}
+					}
+				case *ast.IfStmt:
+					walk(x.Body.List, sq(x.Cond))
+					if eb, ok := x.Else.(*ast.BlockStmt); ok {
+						walk(eb.List, "else:"+sq(x.Cond))
+					} else if x.Else != nil {
+						walk([]ast.Stmt{x.Else}, "else:"+sq(x.Cond))
+					}
+				case *ast.BlockStmt:
+					walk(x.List, cond)
+				}
+			}
+		}
+		walk(fd.Body.List, "")
+	}
+	c.Add("websocketErrorReturns", "List (String × String)", "["+strings.Join(rets, ", ")+"]", src,
+		"websocketError: every return statement with the condition of the innermost enclosing if")
+	c.Add("websocketErrorCodeAssigns", "List (String × String)", "["+strings.Join(assigns, ", ")+"]", src,
+		"websocketError: every assignment to the close code with the condition of the innermost enclosing if")
 }
 
 // extractC13Handoff reads the synchronisation skeleton the gwsStream LTS is built on (webbridge/websocket.go):
